@@ -82,6 +82,41 @@ def _where(ex):
     return where
 
 
+def special_job(job):
+    """Type-aware special contents: for every sensor of the table its own field is set to each boundary / special pattern of
+    its type (IEEE +-inf / NaN for floats, impossible dates, all-ones, sign bit ...) inside otherwise ordinary blocks."""
+    from checks.c12 import own_values
+    from checks.c13 import pos_of
+    fam, tname, seed = job
+    acc = Acc()
+    tab = tables.tables(tables.family_classes()[fam])[tname]
+    ids = {s.id_ for s in tab}
+    n = BLOCK_LEN[(fam, tname)]
+    for si, s in enumerate(tab):
+        w = rs.width(s)
+        if not w:
+            continue
+        pos = pos_of(fam, tname, s)
+        if pos < 0 or pos + w > n:
+            continue
+        for vi, own in enumerate(own_values(s, 4, seed + si)):
+            for base in (0, 4):
+                payload = bytearray(fill(n, base, seed + si))
+                payload[pos:pos + w] = own
+                acc.case()
+                acc.nontrivial("special", fam, tname, si, own, base)
+                case = {"path": "map", "family": fam, "table": tname, "payload": bytes(payload)}
+                try:
+                    d = map_block(fam, tname, bytes(payload))
+                except Exception as ex:
+                    acc.fail("C11|exception|%s|%s" % (type(ex).__name__, _where(ex)),
+                             "_map_response raised %r with %s=%s" % (ex, s.id_, own.hex()), case)
+                    continue
+                if set(d) != ids:
+                    acc.fail("C11|map|%s|missing-keys" % fam, "missing %s" % sorted(ids - set(d))[:5], case)
+    return acc
+
+
 # ---------------------------------------------------------------------------------------------
 def group_sensors():
     return [(f, t, i, s) for (f, t, i, s) in tables.all_sensors() if rs.type_name(s) in rs.GROUPS]
@@ -336,6 +371,8 @@ def run(ctx):
     for fam, tname in (("ET", "all_settings"), ("ET", "settings_arm_fw_19"), ("ET", "settings_arm_fw_22"), ("DT", "all_settings"), ("ES", "settings_arm_fw_14")):
         pass  # register-addressed settings are read one by one: covered by api_job / group_job
     ctx.shard(map_job, jobs, "_map_response over every table x block classes (ES: every payload length)")
+    ctx.shard(special_job, [(fam, tname, ctx.seed) for (fam, tname) in BLOCK_LEN],
+              "type-aware special values of every sensor's own field (IEEE inf/NaN, impossible dates, all-ones, sign bit) inside ordinary blocks")
     groups = group_sensors()
     gjobs = []
     reps = {}
